@@ -930,6 +930,11 @@ def run(prop, seed, budget, ctx):
         failures += gf; distinct |= gd; an += gn
         for k_, v_ in gh.items(): hist[k_] += v_
         for f in gf: hist["P:" + f["why"][0].split(":")[0]] += 1
+        import corners8
+        c8f_, c8n_, c8d_, c8h_ = corners8.run_part("C01", seed, budget)
+        failures += c8f_; distinct |= c8d_; an += c8n_
+        for k_, v_ in c8h_.items(): hist[k_] += v_
+        for f in c8f_: hist["P:" + f["why"][0].split(":")[0]] += 1
         import objmodel
         gf, gn, gd, gh = objmodel.run_part("C01", seed, budget)
         failures += gf; distinct |= gd; an += gn
